@@ -78,6 +78,14 @@ func vLoadTape() {
 
 func vResetTape() { vPos = 0; vFailures = nil; vMarks = nil }
 
+// vSetTapeFile loads another tape (batch validation of sampled passing paths).
+func vSetTapeFile(p string) {
+	os.Setenv("VERIF_TAPE", p)
+	vLoaded = false
+	vTape = nil
+	vLoadTape()
+}
+
 func vNext(kind string) json.RawMessage {
 	vLoadTape()
 	if vPos >= len(vTape) {
